@@ -28,6 +28,8 @@ verus! {
 //@ include prelude/fmt_option.rs
 //@ include prelude/opt_slice.rs
 //@ include prelude/ordering_eq.rs
+//@ include prelude/hashset_of.rs
+//@ include prelude/hashmap_entry.rs
 //@ include units/C11/error_from.rs
 //@ mode contracts-only C15
 //@ include units/C15/error_from_string.rs
@@ -102,6 +104,27 @@ broadcast use {location_hash::axiom_program_location_obeys_key_model, vstd::std_
 proof fn vf_canary_location_set() ensures false {}
 } // mod location_set
 pub use self::location_set::LocationSet;
+
+// analysis::reaching_definitions: the analysis as an instance of C09's trait contract, the solver's contract instantiated
+pub mod reaching_definitions {
+use super::super::*;
+use super::super::il;
+use super::super::il::Loc;
+use super::super::graph;
+use super::LocationSet;
+// `fixed_point::X` in lib/analysis/reaching_definitions.rs names the trait and the solver of lib/analysis/fixed_point.rs;
+// unit C09 splits that file into two modules (trait + theory / forward solver)
+pub mod fixed_point { pub use super::super::super::fixed_point::*; pub use super::super::super::fixed_point_engine::*; }
+use self::fixed_point::*;
+use std::collections::HashMap;
+use vstd::std_specs::iter::IteratorSpec;
+broadcast use {location_hash::axiom_program_location_obeys_key_model, vstd::std_specs::hash::axiom_random_state_builds_valid_hashers};
+//@ include units/C12/rd_spec.rs
+//@ include units/C12/rd_analysis.rs
+//@ include units/C12/rd_theory.rs
+proof fn vf_canary_reaching_definitions() ensures false {}
+} // mod reaching_definitions
+pub use self::reaching_definitions::reaching_definitions;
 
 } // mod analysis
 
